@@ -50,3 +50,20 @@ CASES += [
     t("result allocated with an explicit float type", PP,
       "        pops = numpy.zeros((Nt,pini.shape[0]))", "        pops = numpy.zeros((Nt,pini.shape[0]), dtype=numpy.float64)"),
 ]
+
+CASES += [
+    m("transfer part computed in place on the rate matrix through numpy.asarray", "C17-D", PP,
+      "        KKT = self.KK+numpy.diag(KKD)", "        KKT = numpy.asarray(self.KK)\n        numpy.fill_diagonal(KKT, 0.0)"),
+    m("populations accumulated in place on the caller's vector", "C17-D", PP,
+      "                    rho2 = rho2 + rho1", "                    rho2 += rho1"),
+    m("rate matrix symmetrised in place through its transpose view", "C17-D", PP,
+      "        KKT = self.KK+numpy.diag(KKD)", "        view = self.KK.T\n        view[0, 0] = 0.0\n        KKT = self.KK+numpy.diag(KKD)"),
+    t("transfer part computed on a copy", PP,
+      "        KKT = self.KK+numpy.diag(KKD)", "        KKT = numpy.array(self.KK)\n        numpy.fill_diagonal(KKT, 0.0)"),
+]
+
+CASES += [
+    m("step exponential kept between calls", "C17-E", PP,
+      "            expKd_step = scipy.linalg.expm(self.KK*timeaxis.step)",
+      "            if getattr(self, \"_estep\", None) is None:\n                self._estep = scipy.linalg.expm(self.KK*timeaxis.step)\n            expKd_step = self._estep"),
+]
